@@ -38,15 +38,20 @@ fcppt::optional::object<T> ceil_div_signed(T const &_dividend, T const &_divisor
 
   T const zero{fcppt::literal<T>(0)};
 
-  return (_dividend < zero)
-             ? fcppt::optional::make_if(
-                   _divisor != zero, [_dividend, _divisor] { return _dividend / _divisor; })
-             : fcppt::optional::map(
-                   fcppt::math::ceil_div(
-                       fcppt::cast::to_unsigned(_dividend), fcppt::cast::to_unsigned(_divisor)),
-                   [](std::make_unsigned_t<T> const _result) {
-                     return fcppt::cast::to_signed(_result);
-                   });
+  return fcppt::optional::make_if(
+      _divisor != zero,
+      [_dividend, _divisor, zero]
+      {
+        T const quotient{_dividend / _divisor};
+
+        T const remainder{_dividend % _divisor};
+
+        // Truncation rounds down exactly if the exact quotient is positive, which
+        // is the case if the remainder has the sign of the divisor.
+        return remainder != zero && ((remainder < zero) == (_divisor < zero))
+                   ? quotient + fcppt::literal<T>(1)
+                   : quotient;
+      });
 }
 
 }
